@@ -1,8 +1,10 @@
 #!/bin/bash
 # run.sh <ID> [quick|thorough] — rebuild the harness against /repo's working tree (hooks on) and run one check.
+# Exit code: 0 held, 1 violation (VIOLATION line printed), 2 inconclusive / harness error.
 export GOFLAGS=-mod=mod GOPROXY=off GOSUMDB=off GOTOOLCHAIN=local
 cd "$(dirname "$0")"
 ROOT=$(pwd)
 mkdir -p bin
 ( cd harness && go build -tags verif -o "$ROOT/bin/vcheck" ./cmd/vcheck ) || { echo "INCONCLUSIVE build failed"; exit 2; }
-exec "$ROOT/bin/vcheck" run "$@" 2> >(grep -v "^The USE_BIT_DECOMPOSITION\|^ignoring uninitialized slice" >&2) | grep -v "^The USE_BIT_DECOMPOSITION\|^ignoring uninitialized slice"
+"$ROOT/bin/vcheck" run "$@" 2>&1 | grep -v "^The USE_BIT_DECOMPOSITION\|^ignoring uninitialized slice"
+exit ${PIPESTATUS[0]}
